@@ -22,6 +22,10 @@ type Step struct {
 	B       *lib.Bundle
 	L1      *core.L1Head
 	PruneTo uint64
+	// a refused offer whose roots were tampered with ("newroot" | "oldroot"); HonestRoot is the
+	// root the block's diff really produces
+	Tamper     string
+	HonestRoot *felt.Felt
 	// batch-rotation threshold of a prune step (0 = pruneBatchBytes: one batch per block)
 	BatchBytes int
 	After      World
@@ -41,6 +45,9 @@ func (s *Step) String() string {
 	case "finalise":
 		return fmt.Sprintf("finalise(%d)", s.B.Block.Number)
 	case "rejected":
+		if s.Tamper != "" {
+			return fmt.Sprintf("rejected-%s(%d)", s.Tamper, s.B.Block.Number)
+		}
 		return fmt.Sprintf("rejected(%d)", s.B.Block.Number)
 	case "l1head":
 		return fmt.Sprintf("l1head(%d)", s.L1.BlockNumber)
@@ -135,9 +142,22 @@ func (n *Node) exec(s *Step) error {
 		case "rejected":
 			// a block that does not extend the head (here: the head offered again) must be refused,
 			// and refusing it must change nothing, on disk or in memory
-			n.rejectErr = lib.StoreOn(n.bc, s.B)
+			if s.Tamper != "" {
+				// the commitments are those of the honest block (SanityCheckNewHeight would refuse
+				// the tampered one before Store is reached); Store itself must refuse the roots
+				n.rejectErr = n.storeTampered(s)
+			} else {
+				n.rejectErr = lib.StoreOn(n.bc, s.B)
+			}
 			if n.rejectErr == nil {
 				return fmt.Errorf("a block that does not extend the head was accepted")
+			}
+			return nil
+		case "badrevert":
+			// RevertHead on an empty chain must fail and change nothing
+			n.rejectErr = n.bc.RevertHead()
+			if n.rejectErr == nil {
+				return fmt.Errorf("RevertHead succeeded on an empty chain")
 			}
 			return nil
 		case "revert":
@@ -166,6 +186,20 @@ func (n *Node) exec(s *Step) error {
 		return fmt.Errorf("%w\n%s", err, stack)
 	}
 	return err
+}
+
+// storeTampered calls Store with the step's (tampered) block and the commitments of the honest one.
+func (n *Node) storeTampered(s *Step) error {
+	c := s.B.Clone()
+	honest := s.B.Clone()
+	honest.Block.GlobalStateRoot = s.HonestRoot
+	honest.SU.NewRoot = s.HonestRoot
+	commitments, err := core.VerifyBlockHash(honest.Block, lib.TestNetwork(), honest.SU.StateDiff, core.TrieBackend)
+	if err != nil {
+		// the hash of the honest block does not cover OldRoot: same commitments
+		return fmt.Errorf("harness: commitments of the honest block: %w", err)
+	}
+	return n.bc.Store(c.Block, commitments, c.SU, c.Classes)
 }
 
 // memFilter observes the node's in-memory running event filter without touching the disk: the
@@ -276,6 +310,31 @@ func (b *builder) rejected() {
 	case n == 1:
 		b.push(Step{Op: "rejected", B: b.g.Bundles[0]})
 	}
+}
+
+// rejectedTampered offers the next block (the world's probe) with a wrong new or old root.
+func (b *builder) rejectedTampered(kind string) {
+	n := len(b.sc.Steps)
+	var probe *lib.Bundle
+	if n == 0 {
+		probe = b.sc.BaseWorld.Probe
+	} else {
+		probe = b.sc.Steps[n-1].After.Probe
+	}
+	if probe == nil {
+		return
+	}
+	t := probe.Clone()
+	junk := lib.F(0xBAD0000 + uint64(n))
+	st := Step{Op: "rejected", B: t, Tamper: kind, HonestRoot: probe.Block.GlobalStateRoot}
+	switch kind {
+	case "newroot":
+		t.Block.GlobalStateRoot = junk
+		t.SU.NewRoot = junk
+	case "oldroot":
+		t.SU.OldRoot = junk
+	}
+	b.push(st)
 }
 
 // finalise appends the next block through Finalise instead of Store.
